@@ -1,11 +1,465 @@
-//! C05 — (not built yet)
-#![allow(unused_imports, unused_variables, dead_code)]
+//! C05 — no input can crash, hang or escape memory bounds in any entry point.
+//!
+//! Implementation-side exploration (the runtime part of the property; the logic part —
+//! guards, progress — is carried by the no-panic / totality theorems re-exported in
+//! lean/JominiModel/Props/C05.lean).
+//!
+//! ops (all `x-`: implementation only, the model driver answers `skip`):
+//!   x-text <hex>            push the bytes through every text entry point
+//!   x-bin <hex>             push the bytes through every binary entry point
+//!   x-leaf <hex>            scalar / date / encoding conversions
+//!   x-iso <entry> <depth>   adversarial deep nesting, run in a CHILD process with a watchdog
+//!                           (stack exhaustion aborts cannot be caught in-process)
+//!   x-isochild <entry> <depth>   (what the child executes)
+//! A panic is caught by the harness's catch_unwind (result `panic`, oracle kind `panic`);
+//! debug assertions and overflow checks are compiled in.
 use crate::common::*;
+use crate::docgen;
+use crate::sched::{SchedReader, Step};
+use crate::tyseed::{parse_ty, AnyVisitor, Ty, TySeed};
+use jomini::binary::{BinaryFlavor, FailedResolveStrategy, Lexer, TokenReader as BinReader};
+use jomini::json::{DuplicateKeyMode, JsonOptions, TypeNarrowing};
+use jomini::text::{ObjectReader, TokenReader as TextReader, ValueReader};
+use jomini::{BinaryDeserializer, BinaryTape, Encoding, Scalar, TextDeserializer, TextTape, TextWriterBuilder, Utf8Encoding, Windows1252Encoding};
+use serde::de::DeserializeSeed;
+use std::collections::HashMap;
 
-pub fn gen(g: &mut Gen) {}
+#[derive(Debug, Default)]
+pub struct Flavor;
+impl BinaryFlavor for Flavor {
+    fn visit_f32(&self, data: [u8; 4]) -> f32 { i32::from_le_bytes(data) as f32 / 1000.0 }
+    fn visit_f64(&self, data: [u8; 8]) -> f64 { i64::from_le_bytes(data) as f64 / 32768.0 }
+}
+impl Encoding for Flavor {
+    fn decode<'a>(&self, data: &'a [u8]) -> std::borrow::Cow<'a, str> { Windows1252Encoding::decode(data) }
+}
+
+pub fn resolver() -> HashMap<u16, String> {
+    let mut m = HashMap::new();
+    for (i, k) in docgen::KEY_POOL.iter().enumerate() {
+        if i % 3 != 2 { m.insert(docgen::key_id(k.as_bytes()).unwrap(), k.to_string()); }
+    }
+    m
+}
+
+fn walk_object<E: Encoding + Clone>(r: &ObjectReader<E>, budget: &mut usize) {
+    let _ = r.fields_len();
+    let _ = r.tokens_len();
+    let mut it = r.fields();
+    let _ = it.size_hint();
+    for (k, op, v) in it.by_ref() {
+        let _ = k.read_str(); let _ = k.read_scalar(); let _ = op;
+        walk_value(&v, budget);
+    }
+    let rem = it.remainder();
+    let _ = rem.len();
+    for v in rem.values() { walk_value(&v, budget); }
+    for (k, g) in r.field_groups() {
+        let _ = k.read_string();
+        let _ = g.len();
+        for (_op, v) in g.values() { let _ = v.token(); }
+    }
+}
+
+fn walk_value<E: Encoding + Clone>(v: &ValueReader<E>, budget: &mut usize) {
+    if *budget == 0 { return; }
+    *budget -= 1;
+    let _ = v.read_str(); let _ = v.read_string(); let _ = v.read_scalar(); let _ = v.tokens_len();
+    match v.token() {
+        jomini::TextToken::Object { .. } => {
+            if let Ok(o) = v.read_object() { walk_object(&o, budget); }
+            // an object can also be viewed as an array (keys, operators and values as items): touch, do not recurse twice
+            if let Ok(a) = v.read_array() { let _ = a.len(); for x in a.values() { let _ = x.token(); } }
+        }
+        jomini::TextToken::Array { .. } => {
+            if let Ok(o) = v.read_object() { let _ = o.fields_len(); }
+            if let Ok(a) = v.read_array() {
+                let _ = a.len(); let _ = a.is_empty(); let _ = a.tokens_len();
+                for x in a.values() { walk_value(&x, budget); }
+            }
+        }
+        jomini::TextToken::Header(_) => {
+            if let Ok(a) = v.read_array() {
+                let _ = a.len();
+                // the header view's first element is the header itself
+                for (i, x) in a.values().enumerate() { if i == 0 { let _ = x.read_str(); } else { walk_value(&x, budget); } }
+            }
+        }
+        _ => { let _ = v.read_object().is_ok(); let _ = v.read_array().is_ok(); }
+    }
+}
+
+fn json_all(tape: &TextTape, obs: &mut Obs, case: &str) {
+    for pretty in [false, true] {
+        for dk in [DuplicateKeyMode::Group, DuplicateKeyMode::Preserve, DuplicateKeyMode::KeyValuePairs] {
+            for tn in [TypeNarrowing::All, TypeNarrowing::Unquoted, TypeNarrowing::None] {
+                let opts = JsonOptions::new().with_prettyprint(pretty).with_duplicate_keys(dk).with_type_narrowing(tn);
+                let a = tape.windows1252_reader().json().with_options(opts).to_vec();
+                let b = tape.utf8_reader().json().with_options(opts).to_vec();
+                for out in [&a, &b] {
+                    if std::str::from_utf8(out).is_err() {
+                        obs.violation("json-not-utf8", case, "json output is not valid UTF-8");
+                    }
+                }
+            }
+        }
+    }
+}
+
+fn seeds() -> Vec<Ty> {
+    ["any", "ign", "map(any)", "map(ign)", "seq(any)", "st(a:i64;b:str;name:opt(str);core:seq(str);flags:map(any);x:f64;y:bool)", "st(a:st(a:i64);id:prop(str);type:en(a;b))", "str", "i64"]
+        .iter().map(|s| parse_ty(s).unwrap()).collect()
+}
+
+pub fn all_text(d: &[u8], obs: &mut Obs, case: &str) {
+    // tape, DOM, JSON, writer, tape deserializer
+    if let Ok(tape) = TextTape::from_slice(d) {
+        obs.count("text:tape-ok");
+        let mut budget = 5000;
+        walk_object(&tape.windows1252_reader(), &mut budget);
+        let mut budget = 5000;
+        walk_object(&tape.utf8_reader(), &mut budget);
+        json_all(&tape, obs, case);
+        for (c, f) in [(b' ', 0u8), (b'\t', 1), (b' ', 4), (b' ', 9)] {
+            let mut w = TextWriterBuilder::new().indent_char(c).indent_factor(f).from_writer(Vec::new());
+            let _ = w.write_tape(&tape);
+        }
+        for ty in seeds() {
+            let de = TextDeserializer::from_windows1252_tape(&tape);
+            let _ = TySeed(&ty).deserialize(&de);
+            let de = TextDeserializer::from_utf8_tape(&tape);
+            let _ = TySeed(&ty).deserialize(&de);
+        }
+        // reuse the tape for another parse
+        let mut t2 = TextTape::new();
+        let _ = TextTape::parser().parse_slice_into_tape(b"a=b c={d=e}", &mut t2);
+        let _ = TextTape::parser().parse_slice_into_tape(d, &mut t2);
+    } else {
+        obs.count("text:tape-err");
+    }
+    // readers: slice + buffered with several capacities / schedules, also skip paths
+    let mut r = TextReader::from_slice(d);
+    let mut n = 0;
+    while let Ok(Some(_)) = r.next() { n += 1; if n > 100000 { break; } }
+    let _ = r.position();
+    for (cap, step) in [(1usize, 1usize), (2, 1), (3, 2), (8, 3), (9, 9), (16, 5), (64, 64), (4096, 7)] {
+        let rd = SchedReader::new(d, vec![Step::Repeat(step)]);
+        let mut r = TextReader::builder().buffer_len(cap).build(rd);
+        let mut n = 0;
+        let mut skip = false;
+        loop {
+            match r.next() {
+                Ok(Some(jomini::text::Token::Open)) if skip => { if r.skip_container().is_err() { break; } }
+                Ok(Some(jomini::text::Token::Operator(_))) if skip && n % 3 == 0 => { if r.skip_unquoted_value().is_err() { break; } }
+                Ok(Some(_)) => {}
+                _ => break,
+            }
+            n += 1;
+            skip = n % 2 == 0;
+            if n > 100000 { break; }
+        }
+        let _ = r.position();
+        let rd = SchedReader::new(d, vec![Step::Repeat(step)]);
+        let mut r = TextReader::builder().buffer_len(cap).build(rd);
+        let _ = r.read_bytes(cap.min(d.len()));
+        let _ = r.read();
+    }
+    for ty in seeds() {
+        for cap in [4usize, 16, 32 * 1024] {
+            let rd = TextReader::builder().buffer_len(cap).build(d);
+            let mut de = TextDeserializer::from_windows1252_reader(rd);
+            let _ = TySeed(&ty).deserialize(&mut de);
+            let rd = TextReader::builder().buffer_len(cap).build(d);
+            let mut de = TextDeserializer::from_utf8_reader(rd);
+            let _ = TySeed(&ty).deserialize(&mut de);
+        }
+    }
+    leaf(d);
+}
+
+pub fn leaf(d: &[u8]) {
+    let s = Scalar::new(d);
+    let _ = s.to_bool(); let _ = s.to_i64(); let _ = s.to_u64(); let _ = s.to_f64(); let _ = s.is_ascii(); let _ = format!("{}", s);
+    let _ = Windows1252Encoding::decode(d); let _ = Utf8Encoding::decode(d);
+    use jomini::common::{Date, DateHour, PdsDate, RawDate, UniformDate};
+    if let Ok(x) = Date::parse(d) { let _ = x.game_fmt().to_string(); let _ = x.iso_8601().to_string(); let _ = x.to_binary(); let _ = x.add_days(-400); let _ = x.days_until(&Date::from_ymd(1, 1, 1)); }
+    if let Ok(x) = DateHour::parse(d) { let _ = x.game_fmt().to_string(); let _ = x.iso_8601().to_string(); let _ = x.to_binary(); }
+    if let Ok(x) = UniformDate::parse(d) { let _ = x.game_fmt().to_string(); }
+    if let Ok(x) = RawDate::parse(d) { let _ = x.year(); let _ = x.month(); let _ = x.day(); let _ = x.hour(); }
+    if d.len() >= 4 {
+        let v = i32::from_le_bytes([d[0], d[1], d[2], d[3]]);
+        let _ = Date::from_binary(v); let _ = DateHour::from_binary(v); let _ = Date::from_binary_heuristic(v);
+    }
+}
+
+pub fn all_bin(d: &[u8], obs: &mut Obs, _case: &str) {
+    let res = resolver();
+    if let Ok(tape) = BinaryTape::from_slice(d) {
+        obs.count("bin:tape-ok");
+        for ty in seeds() {
+            for strat in [FailedResolveStrategy::Error, FailedResolveStrategy::Stringify, FailedResolveStrategy::Ignore] {
+                let mut b = BinaryDeserializer::builder_flavor(Flavor);
+                b.on_failed_resolve(strat);
+                let de = b.from_tape(&tape, &res);
+                let _ = TySeed(&ty).deserialize(&de);
+            }
+        }
+        // forward every token to the text writer
+        let mut w = TextWriterBuilder::new().from_writer(Vec::new());
+        for t in tape.tokens() { let _ = w.write_binary(t); }
+        let mut t2 = BinaryTape::default();
+        let _ = jomini::binary::BinaryTapeParser.parse_slice_into_tape(&[0x2d, 0x28, 1, 0, 3, 0, 4, 0], &mut t2);
+        let _ = jomini::binary::BinaryTapeParser.parse_slice_into_tape(d, &mut t2);
+    } else {
+        obs.count("bin:tape-err");
+    }
+    let mut t3 = BinaryTape::default();
+    let _ = jomini::binary::BinaryTapeParser.parse_slice_into_tape_unoptimized(d, &mut t3);
+    // lexer
+    let mut lx = Lexer::new(d);
+    let mut n = 0;
+    while let Ok(Some(t)) = lx.next_token() { n += 1; let mut v = Vec::new(); let _ = t.write(&mut v); if n > 100000 { break; } }
+    let mut lx = Lexer::new(d);
+    let _ = lx.peek_id(); let _ = lx.peek_token();
+    while let Ok(Some(id)) = lx.next_id() { if lx.skip_value(id).is_err() { break; } }
+    for f in 0..11 {
+        let mut lx = Lexer::new(d);
+        let _ = match f { 0 => lx.read_string().map(|_| ()), 1 => lx.read_bool().map(|_| ()), 2 => lx.read_u32().map(|_| ()), 3 => lx.read_u64().map(|_| ()), 4 => lx.read_i64().map(|_| ()), 5 => lx.read_i32().map(|_| ()), 6 => lx.read_f32().map(|_| ()), 7 => lx.read_f64().map(|_| ()), 8 => lx.read_rgb().map(|_| ()), 9 => lx.read_bytes(d.len() / 2).map(|_| ()), _ => lx.read_token().map(|_| ()) };
+    }
+    // streaming reader
+    for (cap, step) in [(1usize, 1usize), (2, 1), (3, 2), (4, 4), (7, 3), (16, 5), (64, 64), (70000, 1000)] {
+        let rd = SchedReader::new(d, vec![Step::Repeat(step)]);
+        let mut r = BinReader::builder().buffer_len(cap).build(rd);
+        let mut n = 0;
+        loop {
+            match r.next() {
+                Ok(Some(jomini::binary::Token::Open)) if n % 2 == 0 => { if r.skip_container().is_err() { break; } }
+                Ok(Some(_)) => {}
+                _ => break,
+            }
+            n += 1;
+            if n > 100000 { break; }
+        }
+        let _ = r.position();
+        let rd = SchedReader::new(d, vec![Step::Repeat(step)]);
+        let mut r = BinReader::builder().buffer_len(cap).build(rd);
+        let _ = r.read_bytes(cap.min(d.len()));
+        let _ = r.read();
+    }
+    for ty in seeds() {
+        for strat in [FailedResolveStrategy::Error, FailedResolveStrategy::Stringify, FailedResolveStrategy::Ignore] {
+            let mut b = BinaryDeserializer::builder_flavor(Flavor);
+            b.on_failed_resolve(strat);
+            let mut de = b.from_slice(d, &res);
+            let _ = TySeed(&ty).deserialize(&mut de);
+            for cap in [4usize, 64, 70000] {
+                let mut b = BinaryDeserializer::builder_flavor(Flavor);
+                b.on_failed_resolve(strat);
+                b.reader_config(BinReader::builder().buffer_len(cap));
+                let mut de = b.from_reader(d, &res);
+                let _ = TySeed(&ty).deserialize(&mut de);
+            }
+        }
+    }
+}
+
+fn deep_text(depth: usize) -> Vec<u8> {
+    let mut v = Vec::with_capacity(depth * 4 + 8);
+    for _ in 0..depth { v.extend_from_slice(b"a={"); }
+    v.extend_from_slice(b"b=c");
+    for _ in 0..depth { v.push(b'}'); }
+    v
+}
+fn deep_text_array(depth: usize) -> Vec<u8> {
+    let mut v = Vec::with_capacity(depth * 2 + 8);
+    v.extend_from_slice(b"a=");
+    for _ in 0..depth { v.push(b'{'); }
+    v.extend_from_slice(b"1");
+    for _ in 0..depth { v.push(b'}'); }
+    v
+}
+fn deep_bin(depth: usize) -> Vec<u8> {
+    let mut v = Vec::with_capacity(depth * 8 + 8);
+    for _ in 0..depth { v.extend_from_slice(&[0x00, 0x20, 0x01, 0x00, 0x03, 0x00]); }
+    v.extend_from_slice(&[0x00, 0x20, 0x01, 0x00, 0x0c, 0x00, 1, 0, 0, 0]);
+    for _ in 0..depth { v.extend_from_slice(&[0x04, 0x00]); }
+    v
+}
+
+pub const ISO_ENTRIES: [&str; 14] = ["text-tape", "text-tape-array", "text-dom", "text-json", "text-write-tape", "text-de-tape-any", "text-de-tape-ign", "text-de-reader-any", "text-de-reader-ign", "text-reader-skip", "bin-tape", "bin-de-tape-any", "bin-de-slice-ign", "bin-reader-skip"];
+
+/// executed in the child process
+pub fn iso_child(entry: &str, depth: usize) -> String {
+    let any = Ty::Any;
+    let ign = Ty::Ign;
+    let res = resolver();
+    match entry {
+        "text-tape" => { let d = deep_text(depth); format!("{}", TextTape::from_slice(&d).is_ok()) }
+        "text-tape-array" => { let d = deep_text_array(depth); format!("{}", TextTape::from_slice(&d).is_ok()) }
+        "text-dom" => { let d = deep_text(depth); let t = TextTape::from_slice(&d).unwrap(); let mut b = usize::MAX; walk_object(&t.windows1252_reader(), &mut b); "ok".into() }
+        "text-json" => { let d = deep_text(depth); let t = TextTape::from_slice(&d).unwrap(); format!("{}", t.utf8_reader().json().to_string().len()) }
+        "text-write-tape" => { let d = deep_text(depth); let t = TextTape::from_slice(&d).unwrap(); let mut w = TextWriterBuilder::new().from_writer(Vec::new()); format!("{}", w.write_tape(&t).is_ok()) }
+        "text-de-tape-any" => { let d = deep_text(depth); let t = TextTape::from_slice(&d).unwrap(); let de = TextDeserializer::from_utf8_tape(&t); format!("{}", TySeed(&parse_ty("map(any)").unwrap()).deserialize(&de).is_ok()) }
+        "text-de-tape-ign" => { let d = deep_text(depth); let t = TextTape::from_slice(&d).unwrap(); let de = TextDeserializer::from_utf8_tape(&t); format!("{}", TySeed(&ign).deserialize(&de).is_ok()) }
+        "text-de-reader-any" => { let d = deep_text(depth); let mut de = TextDeserializer::from_utf8_reader(TextReader::new(&d[..])); format!("{}", AnyVisitor.deserialize(&mut de).is_ok()) }
+        "text-de-reader-ign" => { let d = deep_text(depth); let mut de = TextDeserializer::from_utf8_reader(TextReader::new(&d[..])); format!("{}", TySeed(&parse_ty("st(zz:i64)").unwrap()).deserialize(&mut de).is_ok()) }
+        "text-reader-skip" => { let d = deep_text(depth); let mut r = TextReader::new(&d[..]); let _ = r.read(); let _ = r.read(); let _ = r.read(); format!("{}", r.skip_container().is_ok()) }
+        "bin-tape" => { let d = deep_bin(depth); format!("{}", BinaryTape::from_slice(&d).is_ok()) }
+        "bin-de-tape-any" => { let d = deep_bin(depth); let t = BinaryTape::from_slice(&d).unwrap(); let de = BinaryDeserializer::builder_flavor(Flavor).from_tape(&t, &res); format!("{}", TySeed(&any).deserialize(&de).is_ok()) }
+        "bin-de-slice-ign" => { let d = deep_bin(depth); let mut de = BinaryDeserializer::builder_flavor(Flavor).from_slice(&d, &res); format!("{}", TySeed(&parse_ty("st(zz:i64)").unwrap()).deserialize(&mut de).is_ok()) }
+        "bin-reader-skip" => { let d = deep_bin(depth); let mut r = BinReader::new(&d[..]); let _ = r.read(); let _ = r.read(); let _ = r.read(); format!("{}", r.skip_container().is_ok()) }
+        _ => "bad-entry".into(),
+    }
+}
+
+fn run_isolated(entry: &str, depth: usize) -> Result<String, String> {
+    use std::io::Write;
+    use std::process::{Command, Stdio};
+    let exe = std::env::current_exe().map_err(|e| e.to_string())?;
+    let mut child = Command::new(exe).arg("exec").stdin(Stdio::piped()).stdout(Stdio::piped()).stderr(Stdio::null()).spawn().map_err(|e| e.to_string())?;
+    child.stdin.take().unwrap().write_all(format!("x-isochild {} {}\n", entry, depth).as_bytes()).map_err(|e| e.to_string())?;
+    let start = std::time::Instant::now();
+    loop {
+        match child.try_wait() {
+            Ok(Some(status)) => {
+                let out = child.wait_with_output().map_err(|e| e.to_string())?;
+                let text = String::from_utf8_lossy(&out.stdout).to_string();
+                if status.success() {
+                    return Ok(text.lines().next().unwrap_or("").to_string());
+                }
+                use std::os::unix::process::ExitStatusExt;
+                return Err(format!("child died: signal {:?} code {:?}", status.signal(), status.code()));
+            }
+            Ok(None) => {
+                if start.elapsed().as_secs() > 120 {
+                    let _ = child.kill();
+                    return Err("child timed out after 120 s (hang)".to_string());
+                }
+                std::thread::sleep(std::time::Duration::from_millis(5));
+            }
+            Err(e) => return Err(e.to_string()),
+        }
+    }
+}
 
 pub fn exec(w: &[&str], obs: &mut Obs) -> Option<String> {
-    None
+    let case = w.join(" ");
+    match w {
+        ["x-text", h] => { let d = unhex(h)?; all_text(&d, obs, &case); Some("ok".into()) }
+        ["x-bin", h] => { let d = unhex(h)?; all_bin(&d, obs, &case); Some("ok".into()) }
+        ["x-leaf", h] => { let d = unhex(h)?; leaf(&d); Some("ok".into()) }
+        ["x-isochild", entry, depth] => Some(iso_child(entry, depth.parse().ok()?)),
+        ["x-iso", entry, depth] => {
+            let depth: usize = depth.parse().ok()?;
+            match run_isolated(entry, depth) {
+                Ok(r) if r == "panic" => { obs.violation("panic", &case, "child reported a panic"); Some("panic".into()) }
+                Ok(r) => { obs.count("iso:ok"); Some(format!("ok {}", r)) }
+                Err(e) => {
+                    let kind = if e.contains("timed out") { "hang" } else { "abort" };
+                    obs.violation(kind, &case, &e);
+                    Some(format!("died"))
+                }
+            }
+        }
+        _ => None,
+    }
+}
+
+fn enumerate(alpha: &[&[u8]], maxlen: usize, f: &mut dyn FnMut(&[u8])) {
+    fn rec(alpha: &[&[u8]], cur: &mut Vec<u8>, left: usize, f: &mut dyn FnMut(&[u8])) {
+        f(cur);
+        if left == 0 { return; }
+        for a in alpha {
+            let n = cur.len();
+            cur.extend_from_slice(a);
+            rec(alpha, cur, left - 1, f);
+            cur.truncate(n);
+        }
+    }
+    rec(alpha, &mut Vec::new(), maxlen, f);
+}
+
+pub fn gen(g: &mut Gen) {
+    // 1. exhaustive strings over small significant alphabets
+    let text_alpha: Vec<&[u8]> = vec![b"{", b"}", b"[", b"]", b"=", b"<", b"!", b"?", b"\"", b"\\", b"#", b"@", b"a", b"1", b".", b" ", b"\n", b"\xef"];
+    let tl = g.budget(4, 5);
+    let mut lines = vec![];
+    enumerate(&text_alpha, tl, &mut |s| lines.push(format!("x-text {}", hex(s))));
+    g.count("text-exhaustive");
+    // binary: all token-kind sequences (canonical small payloads + short/zero/huge length prefixes)
+    let bin_alpha: Vec<&[u8]> = vec![
+        &[3, 0], &[4, 0], &[1, 0], &[0x14, 0, 1, 0, 0, 0], &[0x9c, 2, 1, 0, 0, 0, 0, 0, 0, 0], &[0x0c, 0, 0xff, 0xff, 0xff, 0xff], &[0x0e, 0, 1],
+        &[0x0f, 0, 1, 0, b'a'], &[0x17, 0, 0, 0], &[0x0d, 0, 0, 0, 0x80, 0x3f], &[0x67, 1, 0, 0, 0, 0, 0, 0, 0xf0, 0x3f], &[0x43, 2, 3, 0, 0x14, 0, 1, 0, 0, 0, 0x14, 0, 2, 0, 0, 0, 0x14, 0, 3, 0, 0, 0, 4, 0],
+        &[0x17, 3, 5, 0, 0, 0, 0, 0, 0, 0], &[0x00, 0x20], &[0x0f, 0, 0xff, 0xff], &[0x43, 2], &[0x0f],
+    ];
+    let bl = g.budget(3, 4);
+    enumerate(&bin_alpha, bl, &mut |s| lines.push(format!("x-bin {}", hex(s))));
+    g.count("bin-exhaustive");
+    for l in lines { g.emit(l); }
+    // 2. generated documents, mutated / truncated / spliced
+    let n = g.budget(1500, 30000);
+    for _ in 0..n {
+        let doc = docgen::gen_doc(&mut g.rng, &docgen::DocCfg { leading_empty_in_array: true, ..docgen::DocCfg::text_full() });
+        let lex = docgen::lexemes(&doc);
+        let base = docgen::render_layout(&mut g.rng, &docgen::LayoutCfg::full(), &lex);
+        let d = match g.rng.below(4) { 0 => base, 1 => { let k = g.rng.below(base.len() + 1); base[..k].to_vec() } _ => docgen::mutate(&mut g.rng, &base, docgen::TEXT_ALPHABET) };
+        g.emit(format!("x-text {}", hex(&d)));
+        let doc = docgen::gen_doc(&mut g.rng, &docgen::DocCfg { ghosts: true, mixed: true, ..docgen::DocCfg::shared() });
+        let base = docgen::render_binary(&mut g.rng, &docgen::BinCfg::default(), &doc);
+        let d = match g.rng.below(4) {
+            0 => base,
+            1 => { let k = g.rng.below(base.len() + 1); base[..k].to_vec() }
+            2 => { let mut v = base.clone(); if !v.is_empty() { let p = g.rng.below(v.len()); v[p] ^= 1 << g.rng.below(8); } v }
+            _ => docgen::mutate(&mut g.rng, &base, &[0, 1, 3, 4, 0x0c, 0x0e, 0x0f, 0x14, 0x17, 0x0d, 0x67, 0x43, 0x9c, 2, 0xff, 0x20]),
+        };
+        g.emit(format!("x-bin {}", hex(&d)));
+    }
+    g.count("generated-mutated");
+    // 3. random strings
+    let n = g.budget(1500, 30000);
+    for _ in 0..n {
+        let d = docgen::random_text(&mut g.rng, 40);
+        g.emit(format!("x-text {}", hex(&d)));
+        let len = g.rng.below(40);
+        let d: Vec<u8> = (0..len).map(|_| *g.rng.pick(&[0u8, 1, 3, 4, 0x0c, 0x0e, 0x0f, 0x14, 0x17, 0x0d, 0x67, 0x43, 0x9c, 2, 0xff, 0x20, b'a'])).collect();
+        g.emit(format!("x-bin {}", hex(&d)));
+        let len = g.rng.below(24);
+        let d: Vec<u8> = (0..len).map(|_| *g.rng.pick(b"0123456789.-+ye sno\xff\\\xe9\xc3\xa9\x80")).collect();
+        g.emit(format!("x-leaf {}", hex(&d)));
+    }
+    // 4. fixtures from the repository, bit-flipped / truncated
+    if let Ok(rd) = std::fs::read_dir("/repo/tests/fixtures") {
+        let mut paths: Vec<_> = rd.flatten().map(|e| e.path()).filter(|p| p.is_file()).collect();
+        paths.sort();
+        for p in paths {
+            if let Ok(data) = std::fs::read(&p) {
+                if data.len() > 20000 { continue; }
+                let bin = p.extension().map(|e| e == "bin").unwrap_or(false) || !data.iter().take(64).all(|b| *b >= 9);
+                let reps = g.budget(4, 40);
+                for i in 0..reps {
+                    let mut v = data.clone();
+                    if i > 0 && !v.is_empty() {
+                        match g.rng.below(3) { 0 => { let p = g.rng.below(v.len()); v[p] ^= 1 << g.rng.below(8); } 1 => { let k = g.rng.below(v.len()); v.truncate(k); } _ => { v = docgen::mutate(&mut g.rng, &v, docgen::TEXT_ALPHABET); } }
+                    }
+                    g.emit(format!("{} {}", if bin { "x-bin" } else { "x-text" }, hex(&v)));
+                    g.count("fixture");
+                }
+            }
+        }
+    }
+    // 5. adversarial shapes: unterminated quotes, huge length prefixes, deep nesting (isolated)
+    for s in [&b"a=\"unterminated"[..], b"\"", b"a=\"\\", b"a={b={c={", b"}}}}", b"a=b}", b"@[", b"[[", b"[[a]", b"a=[[b] c=d", b"a = { [[b] c ] }", b"#", b"a=#\n", b"\xef\xbb", b"\xef\xbb\xbf", b"\xef\xbb\xbf\xef\xbb\xbf a=b"] {
+        g.emit(format!("x-text {}", hex(s)));
+    }
+    for s in [&[0x0f, 0, 0xff, 0xff, b'a'][..], &[0x17, 0, 0xff, 0x7f], &[3, 0, 3, 0, 3, 0], &[4, 0, 4, 0], &[0x43, 2, 3, 0, 0x14, 0], &[0, 0x20, 1, 0], &[1, 0, 1, 0, 1, 0]] {
+        g.emit(format!("x-bin {}", hex(s)));
+    }
+    for e in ISO_ENTRIES {
+        g.emit(format!("x-iso {} 1000", e));
+        // the DOM walk at this depth would overflow through the harness's own recursion, not the library's
+        if e != "text-dom" { g.emit(format!("x-iso {} 100000", e)); }
+    }
+    g.count("adversarial");
 }
 
 pub fn tables() -> String {
